@@ -33,8 +33,9 @@ def clang_resource_dir() -> str:
 
 def clang_ir(src: str, out: str, olevel: str, target: str, incs: Sequence[str], defines: Sequence[str] = ()) -> None:
     cmd = ["clang", "-S", "-emit-llvm", f"-{olevel}", "-fno-vectorize", "-fno-slp-vectorize", "-Wno-everything"]
-    if target == "s390x":
-        cmd += ["-target", "s390x-linux-gnu", "-ffreestanding", "-nostdinc", "-isystem", SHIM, "-isystem", os.path.join(clang_resource_dir(), "include")]
+    triples = {"s390x": "s390x-linux-gnu", "ppc64": "powerpc64-linux-gnu", "mips64": "mips64-linux-gnu"}  # big-endian data layouts
+    if target in triples:
+        cmd += ["-target", triples[target], "-ffreestanding", "-nostdinc", "-isystem", SHIM, "-isystem", os.path.join(clang_resource_dir(), "include")]
     elif target != "x86_64":
         raise ValueError(target)
     for d in defines:
